@@ -170,6 +170,10 @@ pub fn apply2(w: &mut World, op: usize, a: Node, b: Node) -> Result<Vec<Node>, E
         7 => w.xot.append_namespace_node(a, b).map(|_| vec![]),
         _ => {
             w.xot.insert_after(a, b)?;
+            if w.xot.is_removed(b) {
+                // a text node merged into its new neighbour
+                return Ok(vec![]);
+            }
             w.xot.detach(b).map(|_| vec![])
         }
     }
